@@ -243,7 +243,7 @@ async fn handle_request(
                 debug,
                 log_id,
                 "Got unexpected request while processing previous: {:?}",
-                x.request().request(),
+                net_utils::scrub_request(x.request().request()),
             ),
             Ok(None) => (),
             Err(e) => log_id!(debug, log_id, "IO error during processing: {}", e),
